@@ -253,13 +253,25 @@ def rule_read_config(repo, rep, af):
                     s[KEY] = AObj("valx")
             shapes.append((f"unknown parent at level {lvl}, key {'present' if has_key else 'absent'}", secs, "ConfigOptionError"))
     shapes.append(("unknown start section", {"Other": {}}, "ConfigOptionError"))
+    for has_key in (False, True):
+        for ln in (2, 3):
+            secs = {f"S{i}": {"inherit": f"S{(i + 1) % ln}"} for i in range(ln)}
+            if has_key:
+                secs["S0"][KEY] = AObj("val0")
+            shapes.append((f"inheritance cycle through {ln} sections, key {'present' if has_key else 'absent'}", secs, "ConfigOptionError"))
     for desc, secs, want_exc in shapes:
         def mk():
             cfg = Config(secs)
             slf = AObj("self", {"vela_config": cfg}, cls="ArchitectureFeatures")
             return [slf, "S0", KEY, "default", AList([], "found")], {}
 
-        paths = it.run("ArchitectureFeatures._read_config", mk)
+        try:
+            paths = list(it.run("ArchitectureFeatures._read_config", mk))
+        except AnalysisError as e_:
+            if want_exc and "depth" in str(e_):
+                rep.bad("C18-b", site, f"{desc}: rejected with {want_exc}", "the reader recurses without end (RecursionError traceback instead of a configuration error)")
+                continue
+            raise
         for p in paths:
             if want_exc:
                 nm = p.value.name if p.kind == "raise" and isinstance(p.value, AObj) else None
@@ -572,7 +584,7 @@ def rule_ini(repo, rep, af):
     areas = [k for k in enum_of(repo, "tensor", "MemArea") if k not in ("Unknown", "Size")]
     ports = [k for k in enum_of(repo, "architecture_features", "MemPort")]
     keys_sys, keys_mem = set(), set()
-    for call in calls_in(f, "self._read_config"):
+    for call in list(calls_in(f, "self._read_config")) + list(calls_in(f, "self._read_port")):
         sec, key = norm(call.args[0]), call.args[1]
         tgt = keys_sys if sec == "sys_cfg_section" else keys_mem
         if isinstance(key, ast.Constant):
